@@ -1,5 +1,6 @@
 import GoomVerif.Drv.Util
 import GoomVerif.Model.MethodH
+import GoomVerif.Model.MethodG
 /-! Driver for C06.
 
     `c06.hist <step>.. | <entry>.. | <sym>..`
@@ -109,8 +110,45 @@ def snapshot (syms : List Str) (all : List Entry) (hot : List (Option Str)) :
       | a, b, c => some s!"{i}:{showCall a}/{showCall b}/{showCall c}"
     snapshot syms all hot r2.1 (i + 1) rest (match tok with | some t => t :: acc | none => acc)
 
+def enumFrom {α : Type} : Nat → List α → List (Nat × α)
+  | _, [] => []
+  | n, a :: as => (n, a) :: enumFrom (n + 1) as
+
+def parseGStep (t : String) : Option MethodG.GStep :=
+  match splitTilde t with
+  | ["GN", h, pkg, ty, p, m, eid] =>
+    if (p = "0" ∨ p = "1") ∧ eid.toNat?.isSome then h.toNat?.map (fun h => .gnew h ⟨pkg.toList, ty.toList, p = "1"⟩ m.toList) else none
+  | ["GA", h] => h.toNat?.map .gapply
+  | ["GU", h] => h.toNat?.map .gunpatch
+  | _ => none
+
+/-- `c06.guard <gstep>.. | <entry>.. | <sym>..` with gstep := `GN~h~pkg~T~ptr~m~eid` | `GA~h` | `GU~h`
+    (patch.InstanceMethod(type, m, cb k) / guard.Apply() / guard.UnpatchWithLock()); same answer format -/
+def handleGuard (rest0 : List String) : String :=
+  match splitBar rest0 with
+  | [stoks, etoks, symtoks] =>
+    match stoks.mapM parseGStep, etoks.mapM parseEntry with
+    | some steps, some entriesB =>
+      let entries := entriesB.map (·.1)
+      let syms : List Str := symtoks.map String.toList
+      let r := MethodG.grun syms entries MethodG.GState.init 0 steps
+      let beh (p : List (Nat × Nat)) (eb : Entry × Option Nat) : Option Nat :=
+        match Method.behavOf syms p eb.1, eb.2.bind (fun j => entries[j]?) with
+        | none, some b => Method.behavOf syms p b       -- promoted method: the wrapper calls the embedded type's method
+        | x, _ => x
+      let hits := (enumFrom 0 entriesB).filterMap (fun (i, eb) =>
+        (beh r.1.patched eb).map (fun k => s!"{i}:{k}:r+:{if eb.1.shape.isEmpty || eb.1.np == 0 then "a+" else "a-"}"))
+      let hs := steps.filterMap (fun st => match st with | .gnew h _ _ => some h | _ => none)
+      let after := hs.foldl (fun s h => (MethodG.gstep syms entries s steps.length (.gunpatch h)).1) r.1
+      let clean := entriesB.all (fun eb => (beh after.patched eb).isNone)
+      let rs := (String.intercalate "," (r.2.map showRes)).replace "@" "github.com/tencent/goom/internal/zzverif/c06"
+      s!"r={rs} hit={String.intercalate "," hits} after={if clean then "clean" else "dirty"}"
+    | _, _ => "bad-op"
+  | _ => "bad-op"
+
 def handle (toks : List String) : Option String :=
   match toks with
+  | "c06.guard" :: rest0 => some (handleGuard rest0)
   | "c06.hist" :: rest0 =>
     -- `@` abbreviates the common import-path prefix of the corpus packages on the wire.  The model only compares and
     -- concatenates names, and every name of the line is abbreviated the same way, so it runs on the abbreviated text; the
